@@ -43,7 +43,7 @@ def result_honest(ctx, funcq: str, result_cls: str, tol_params: set[str], flag: 
                     n_true += 1
                     ok = any(_tol_cond(c, t, tol_params, funcq) for c, t in p.cond_log[: e.ncond])
                     conds = "; ".join(f"{show(c)[:40]}={t}" for c, t in p.cond_log[: e.ncond])
-                    ctx.ob("CONV-honest", f"{funcq}|{util.text(e.node, 50)}|{_which(p, e, tol_params, funcq)}", e.loc(), ok,
+                    ctx.ob("CONV-honest", f"{funcq}|{util.akey(e.node, e.func, 50)}|{_which(p, e, tol_params, funcq)}", e.loc(), ok,
                            f"{flag}=True only after a tolerance test passed" if ok else
                            f"{result_cls.split('.')[-1]}({flag}=True) is reachable without any passed test against "
                            f"{sorted(tol_params)} (path conditions: {conds or 'none'}) — non-convergence would be "
